@@ -45,6 +45,9 @@ TProjData ==
   /\ \A n \in DOMAIN AllDict : Line.dict[n] = AllDict[n]
   /\ UNCHANGED vars
   /\ UNCHANGED seenIdx
+\* the WAL manager creates a new log for the family after the old one was destroyed: nothing changes for the data
+\* side; sequences of the (family, leader) pair go on (the family validates every entry against its recorded sequence)
+TLogRecreate == Ev("LogRecreate") /\ up /\ UNCHANGED vars /\ UNCHANGED seenIdx
 \* Shard.FlushIndex observed through the kv seam: prepare, then one IdxCommit per manifest commit of an index family:
 \* metric inverted index, forward index, inverted index (part "index", in this order), then the series family.
 \* A new series with a tag has entries in all three; the shard index finds a series by metric AND by tag, i.e.
@@ -92,7 +95,7 @@ TFinal ==
   /\ UNCHANGED seenIdx
 
 TraceNext == TReset \/ TAppend \/ TReplicaStep \/ TRBegin \/ TRWrite \/ TRCommit \/ TMetaFlush \/ TFamilyCommit \/ TFamilyAck \/ TCrash \/ TRecover \/ TLogRollback
-             \/ TSyncGC \/ TExpireCheck \/ TProjData \/ TIdxPrepare \/ TIdxCommit \/ TIdxDone \/ TStutter \/ TProj \/ TFinal
+             \/ TSyncGC \/ TExpireCheck \/ TProjData \/ TLogRecreate \/ TIdxPrepare \/ TIdxCommit \/ TIdxDone \/ TStutter \/ TProj \/ TFinal
 TraceSpec == TraceInit /\ [][TraceNext]_tvars
 HighWater == TLCSet(1, IF l > TLCGet(1) THEN l ELSE TLCGet(1))
 TraceAccepted ==
